@@ -806,7 +806,7 @@ class Exec:
                     if not ok: outs.append((s1, ('raise', PExc('ValueError', val=Val.Obj(fresh('exc', IntSort())), where='unpack')))); continue
                     fl = [(s1, NEXT)]
                     for i, t in enumerate(target.elts):
-                        fl = [x for s2, f2 in fl for x in (self.assign(s2, t, ZV('val', arr[IntVal(i)])) if f2 is NEXT else [(s2, f2)])]
+                        fl = [x for s2, f2 in fl for x in (self.assign(s2, t, ZV('val', asel(arr, IntVal(i)))) if f2 is NEXT else [(s2, f2)])]
                     outs.extend(fl)
                 return outs
             if starred:
